@@ -260,7 +260,9 @@ assert _w["final"]["cfile"], ("warm-up module does not compile", _w["errors"], _
 per_text_timeout = _saved
 from Cython.Compiler import ExprNodes, MatchCaseNodes, Nodes, ModuleNode, Optimize, FlowControl
 repatch()
-import resource
+import resource, gc
+gc.collect()
+gc.freeze()        # the children do not traverse (and thereby copy) the warmed-up heap
 
 def in_fork(item):
     r, w = os.pipe()
